@@ -49,7 +49,7 @@ func exactP(tab *ref.UTable, twoU int) (less, differs, greater float64) {
 }
 
 // d3Signature: the value the recorded defect D3 produces for the two-sided
-// exact test: 2*Pr[U' <= min(U1, N1N2-U1)], or 1 when U1 == U2.
+// exact test: min(1, 2*Pr[U' <= min(U1, N1N2-U1)]), or 1 when U1 == U2.
 func d3Signature(tab *ref.UTable, twoU int) float64 {
 	m := tab.Max2U()
 	if 2*twoU == m {
@@ -59,7 +59,7 @@ func d3Signature(tab *ref.UTable, twoU int) float64 {
 	if m-twoU < lo {
 		lo = m - twoU
 	}
-	return 2 * tab.CDF2(lo)
+	return math.Min(1, 2*tab.CDF2(lo))
 }
 
 func c01Judge(w *mon.W, c c01Case) {
